@@ -43,7 +43,10 @@ from . import common
 from .common import cN, cbool, clist, cnat
 
 THEOREMS = [
-    "drf_noninterference", "drf_results",
+    "drf_noninterference", "drf_results", "memo_fill_is_invisible",
+    "call_footprint_sound", "call_writes_declared", "call_solo_result",
+    "calls_noninterference", "multiref_per_call_safe", "multiref_shared_refuted",
+    "clone_independent", "clone_keeps_original",
 ]
 
 PRE = "From SV Require Import Lib.Base C13.Interleave C13.Model."
@@ -1151,17 +1154,25 @@ def run(ck):
         if i not in bad_sc:
             problems.append(("schedule model", sc_meta[i]["payload"]))
 
-    # footprint failures: the property's footprint condition is violated by a
-    # measured call.  The schedule search above has looked for an interleaving
-    # that exhibits it; if it found one, that is the failing input.
+    # footprint failures.  A call that writes another client's message slot (or
+    # reads the slot) contradicts "own message history" directly.  Any other
+    # write outside {memo fills, own message slots} breaks the hypothesis of the
+    # theorem: the schedule search above has looked (first, and harder) for an
+    # interleaving that exhibits interference; if it found one, that is the
+    # failing input, otherwise the property is no longer shown.
+    found_schedule = any(not v[3] for v in ck.violations) or bool(ck.known_seen)
     for i in sorted(bad_fp_spec):
         m = fp_meta[i]
-        offending = [w for w in m["writes"] + m["transient"]]
-        if not ck.violations or all(v[3] for v in ck.violations):
-            ck.failing_input(fp_class(m), "a %s call (%s, %s) leaves shared state behind that is neither a "
-                             "memo fill nor its client's message slot: %s; Client.messages reads: %d"
-                             % (m["kind"], m["how"], m["mode"], fp_offenders(m), m["msg_reads"]),
+        if fp_class(m) == "C13:message-history-shared":
+            ck.failing_input("C13:message-history-shared",
+                             "a %s call through one client (%s, %s) touches the message history of another "
+                             "client, or reads the slot: writes %s; reads %d"
+                             % (m["kind"], m["how"], m["mode"], [w[0] for w in m["writes"]][:4], m["msg_reads"]),
                              {"mode": "footprint", "case": m})
+        elif not found_schedule:
+            problems.append(("footprint condition: a %s call (%s, %s) leaves shared state behind that is "
+                             "neither a memo fill nor its client's message slot: %s"
+                             % (m["kind"], m["how"], m["mode"], fp_offenders(m)), m))
     for i in sorted(bad_fp_agree - bad_fp_spec):
         problems.append(("footprint model", fp_meta[i]))
 
@@ -1181,9 +1192,8 @@ def run(ck):
         ck.unproved("proof obligation of C13 no longer checks: " + ck.proof_log[-1500:],
                     {"theorems": THEOREMS, "log": ck.proof_log[-3000:]})
     if problems:
-        ck.unproved("model/implementation correspondence of C13 no longer holds (%s): the implementation "
-                    "meets the executable spec on every generated input but writes outside the footprint "
-                    "the theorems are about, or behaves unlike the model" % problems[0][0],
+        ck.unproved("C13 is no longer shown for the current implementation (%s); no interleaving exhibiting "
+                    "interference was found by the schedule search" % (problems[0][0],),
                     {"problems": problems[:5]})
 
 
@@ -1387,6 +1397,32 @@ def schedule_cases(ck, world, runner, rng, quick, memo_cells, suspicious_fp, fp_
         for sw in s.switches[:1]:
             classes[sw[2].split(":")[0]] = classes.get(sw[2].split(":")[0], 0) + 1
 
+    # --- (w) the refutation witness of multiref_shared_refuted on real threads:
+    # thread A suspended at each step of MultiRef.process / Binding.get_reply while
+    # thread B, through the same client and service, runs its whole call ---
+    wit_pairs = [("enc-item", "enc-echo"), ("enc-echo", "enc-item"), ("enc-item", "enc-item"),
+                 ("doc-find", "enc-item"), ("lit-item", "lit-echo")]
+    for wn, (ka, kb) in enumerate(wit_pairs):
+        setup = Setup("same", ["plain"], [(0, ka, gen_spec(rng, ka, "WA%d" % wn)),
+                                          (0, kb, gen_spec(rng, kb, "WB%d" % wn))])
+        total_a, names = runner.count_events(setup, 0)
+        total_b, _ = runner.count_events(Setup("same", ["plain"], [setup.threads[1]]), 0)
+        steps = [i for i, nm in enumerate(names, 1)
+                 if nm.split(":")[0] == "multiref.py" and nm.split(":")[1] in ("process", "build_catalog", "update")]
+        tops = [i for i, nm in enumerate(names, 1) if nm.startswith("multiref.py:process:")]
+        # every event of process/build_catalog, the first and last few of update, and get_reply's own events
+        upd = [i for i in steps if names[i - 1].startswith("multiref.py:update:")]
+        chosen = sorted(set(tops + [i for i in steps if not names[i - 1].startswith("multiref.py:update:")]
+                            + upd[:3] + upd[-3:]
+                            + [i for i, nm in enumerate(names, 1) if ":get_reply:" in nm]))
+        clients = None
+        for k in chosen:
+            plan = [(0, k), (1, None)]
+            outs, sch, solos, clients = runner.run_schedule(setup, plan, False, clients=clients)
+            record(setup, plan, False, False, outs, sch, solos, [total_a, total_b],
+                   "witness replay: A suspended inside MultiRef.process/get_reply")
+            if any(not (o["req_own"] and o["res"] == 0) for o in outs):
+                clients = None
     # --- (a) single preemption, two calls ---
     relations = ["same", "clone", "clone2", "separate"]
     pairs = [(a, b) for a in KIND_LIST for b in KIND_LIST]
@@ -1413,7 +1449,7 @@ def schedule_cases(ck, world, runner, rng, quick, memo_cells, suspicious_fp, fp_
                 pairs.remove((k, partner))
             pairs.insert(0, (k, partner))
     event_cache = {}
-    t_budget = time.time() + (75 if quick else 3 * 3600)
+    t_budget = time.time() + (150 if quick else 3 * 3600)
     for pn, (ka, kb) in enumerate(pairs):
         if time.time() > t_budget:
             break
@@ -1449,7 +1485,7 @@ def schedule_cases(ck, world, runner, rng, quick, memo_cells, suspicious_fp, fp_
                     break
     # --- (b) random schedules, <= 3 preemptions, 2..4 threads, line granularity ---
     n_random = 60 if quick else 1500
-    t_budget2 = time.time() + (25 if quick else 3600)
+    t_budget2 = time.time() + (60 if quick else 3600)
     for rn in range(n_random):
         if time.time() > t_budget2:
             break
